@@ -40,10 +40,35 @@ thread_local! {
     static PROBES: RefCell<BTreeMap<&'static str, u64>> = const { RefCell::new(BTreeMap::new()) };
 }
 
+thread_local! {
+    static PROBE_LIMITS: RefCell<BTreeMap<&'static str, (u64, u64)>> = const { RefCell::new(BTreeMap::new()) };
+}
+
 /// Record that a branch of interest was reached (thread-local counter).
 pub fn verif_probe(name: &'static str) {
     PROBES.with(|probes| {
         *probes.borrow_mut().entry(name).or_insert(0) += 1;
+    });
+    let exceeded = PROBE_LIMITS.with(|limits| {
+        let mut limits = limits.borrow_mut();
+        match limits.get_mut(name) {
+            Some((count, limit)) => {
+                *count += 1;
+                (*count > *limit).then_some(*limit)
+            }
+            None => None,
+        }
+    });
+    if let Some(limit) = exceeded {
+        panic!("verif: probe `{}` reached more than {} times", name, limit);
+    }
+}
+
+/// Let the simulator bound how often a probe may be reached from now on (a loop that
+/// performs no I/O is invisible to the simulated file system's step budget).
+pub fn verif_limit_probe(name: &'static str, limit: u64) {
+    PROBE_LIMITS.with(|limits| {
+        limits.borrow_mut().insert(name, (0, limit));
     });
 }
 
